@@ -38,6 +38,11 @@ def enc(x, *, quant_den=QUANT_DEN, exact_den=EXACT_DEN):
     if math.isinf(x):
         return [1 if x > 0 else -1, 0]
     if abs(x) >= HUGE:
+        # large values are sent exactly only if they are multiples of 1/8 below 2^24 (the float64 near-tie stratum lives at
+        # level 2^23); everything else is clamped -- the specification's values stay far below
+        fx = F(x)
+        if abs(x) < (1 << 24) and fx.denominator <= 8:
+            return [fx.numerator, fx.denominator]
         return [HUGE if x > 0 else -HUGE, 1]
     fx = F(x)
     if fx.denominator <= exact_den and abs(fx.numerator) < (1 << 28):
@@ -85,6 +90,8 @@ def mul(a, b):
 
 
 def _lit(p):
+    if p[1] == 0:      # the extended reals of the specification: NaN <<0,0>>, +-inf <<+-1,0>>
+        return "jnp.nan" if p[0] == 0 else ("jnp.inf" if p[0] > 0 else "(-jnp.inf)")
     v = F(p[0], p[1])
     return repr(int(v)) if v.denominator == 1 else repr(float(v))
 
